@@ -64,7 +64,7 @@ func (ev *Eval) eval(e SExpr) (Val, error) {
 	return ev.force(s), nil
 }
 
-func boolVal(t Term) Val      { return Val{Typ: tBool, Comps: []Term{t}} }
+func boolVal(t Term) Val               { return Val{Typ: tBool, Comps: []Term{t}} }
 func intVal(t Term, ty types.Type) Val { return Val{Typ: ty, Comps: []Term{t}} }
 
 func (ev *Eval) resolveType(s string) (types.Type, error) {
@@ -74,6 +74,15 @@ func (ev *Eval) resolveType(s string) (types.Type, error) {
 	if err != nil {
 		// retry at package scope
 		tv, err = types.Eval(ev.g.ctx.fset, pkg, token.NoPos, s)
+		if err != nil && pkg != nil {
+			// imports are file-scoped: try every file of the package
+			for i := 0; i < pkg.Scope().NumChildren() && err != nil; i++ {
+				fs := pkg.Scope().Child(i)
+				if fs.End() > fs.Pos() {
+					tv, err = types.Eval(ev.g.ctx.fset, pkg, fs.End()-1, s)
+				}
+			}
+		}
 		if err != nil {
 			return nil, fmt.Errorf("cannot resolve type %q: %v", s, err)
 		}
@@ -667,6 +676,12 @@ func (ev *Eval) call(x *SCall) (sval, error) {
 				return sval{}, err
 			}
 			return sval{v: g.unboxIface(ev.st, v, t)}, nil
+		case "addrBE32":
+			v, err := ev.eval(x.Args[0])
+			if err != nil {
+				return sval{}, err
+			}
+			return sval{v: intVal(g.addrBE32(v), types.Typ[types.Uint32])}, nil
 		case "fresh":
 			v, err := ev.eval(x.Args[0])
 			if err != nil {
@@ -682,6 +697,24 @@ func (ev *Eval) call(x *SCall) (sval, error) {
 			// spec function (macro)
 			if fn, ok := g.ctx.specs.Fns[id.Name]; ok {
 				return ev.expandSpecFn(fn, x.Args)
+			}
+			if key, ok := g.ctx.specs.Aliases[id.Name]; ok {
+				fn := g.ctx.lookupFunc(key)
+				if fn == nil {
+					return sval{}, fmt.Errorf("alias %s: function %s not found", id.Name, key)
+				}
+				var argVals []Val
+				for i, a := range x.Args {
+					v, err := ev.eval(a)
+					if err != nil {
+						return sval{}, err
+					}
+					if i < len(fn.Params) {
+						v.Typ = fn.Params[i].Type()
+					}
+					argVals = append(argVals, v)
+				}
+				return sval{v: g.pureApp(pureKey(fn, key), argVals, fn.Signature.Results().At(0).Type(), ev.st)}, nil
 			}
 			if o := g.ctx.scopeLookupPkg(ev.pkg, ev.pos, id.Name); o != nil {
 				switch o := o.(type) {
@@ -838,9 +871,10 @@ func (ev *Eval) pureCall(m *types.Func, recv *sval, args []SExpr) (sval, error) 
 			argVals[off+i] = g.zeroVal(sig.Params().At(i).Type())
 		}
 	}
-	if sig.Results().Len() != 1 {
-		return sval{}, fmt.Errorf("pure call %s must have exactly one result", m.Name())
+	if sig.Results().Len() < 1 {
+		return sval{}, fmt.Errorf("pure call %s has no result", m.Name())
 	}
+	// functions with several results: the specification value is the first result
 	// callees marked `inline` are evaluated by executing their (loop-free) body in the spec state
 	if fn := g.ctx.prog.FuncValue(m); fn != nil && g.noName == 0 {
 		if ct := g.ctx.contracts[g.ctx.funcKey(fn)]; ct != nil && ct.Inline && len(fn.Blocks) > 0 {
@@ -874,7 +908,11 @@ func (g *Gen) pureApp(key string, args []Val, resT types.Type, st *State) Val {
 		}
 	}
 	argSorts = append(argSorts, SInt)
-	argTerms = append(argTerms, st.tok.S)
+	if heapIndependent(key) {
+		argTerms = append(argTerms, "0")
+	} else {
+		argTerms = append(argTerms, st.tok.S)
+	}
 	ly := layout(resT)
 	res := Val{Typ: resT}
 	for i, c := range ly {
@@ -888,4 +926,14 @@ func (g *Gen) pureApp(key string, args []Val, resT types.Type, st *State) Val {
 	}
 	g.usedPure[key] = true
 	return res
+}
+
+// heapIndependent: pure functions over value types whose result does not depend on mutable memory.
+func heapIndependent(key string) bool {
+	for _, p := range []string{"(net/netip.", "net/netip.", "math.", "(time.Duration)", "(time.Time)", "time.Unix", "math/bits."} {
+		if strings.HasPrefix(key, p) {
+			return true
+		}
+	}
+	return false
 }
